@@ -23,9 +23,9 @@ CasesFor(k) ==
     [] k = "snapscale" -> {[op |-> "snapscale", small |-> sm, n |-> n, tol |-> t] : sm \in BOOLEAN, n \in ScaleNs, t \in Tols}
     [] k = "align" -> {[op |-> "align", x |-> x] : x \in AlignXs}
     [] k = "snapgrid" -> {[op |-> "snapgrid", x0 |-> x0, sp |-> sp, r |-> r, o |-> o, tol |-> t] : x0 \in SG.x0, sp \in SG.sp, r \in SG.r, o \in SG.o, t \in {<<1, 100>>}}
-    [] k = "snapaffine" -> {[op |-> "snapaffine", sx |-> sx, tx |-> tx, sy |-> sy, ty |-> ty, rot |-> rot, tol |-> t] :
+    [] k = "snapaffine" -> {[op |-> "snapaffine", sx |-> sx, tx |-> tx, sy |-> sy, ty |-> ty, rot |-> rot, tol |-> t, stol |-> st] :
                               sx \in {1024, 2049, 3064, -1016}, tx \in {5120, 5121, 5130, -3073, 700}, sy \in {-1024, -1025, 2040}, ty \in {0, 9, -1, 40},
-                              rot \in {0, 16}, t \in Tols}
+                              rot \in {0, 16}, t \in Tols, st \in Tols}      \* tol: translation tolerance, stol: scale tolerance (independent)
     [] k = "rws" -> {[op |-> "rws", R |-> R, w2 |-> w, sx2 |-> sx, sy2 |-> sy] : R \in Rots, w \in {0, 1, -1, 2, -2}, sx \in {2, -2, 1, 4}, sy \in {2, -2, -1, 6}}
     [] k = "affpts" -> {[op |-> "affpts", A |-> A, X |-> X] : A \in AffInts, X \in PtSets}
     [] k = "axis" -> {[op |-> "axis", x0 |-> x0, rx |-> rx, nx |-> nx, y0 |-> 3, ry |-> ry, ny |-> ny] :
